@@ -15,7 +15,7 @@ import vf
 PROP = "C11"
 ENTRY = "relayer::write::verif_harness::crash_scenarios"
 OUTCOMES = [(True, "ok"), (True, "error"), (False, "error"), (True, "timeout"), (False, "timeout")]
-INCLUDES = ["polls:1", "polls:3", "never", "on_crash", "on_next_prepare"]
+INCLUDES = ["polls:1", "polls:3", "never", "on_crash", "on_next_prepare", "fail_polls:1"]
 CRASHES = [("none", 0, "-"), ("nodeinfo", 1, "before"), ("prepare", 1, "before"), ("broadcast", 1, "before"),
            ("broadcast", 1, "after"), ("gettx", 1, "before"), ("gettx", 2, "before"), ("prepare", 2, "before"),
            ("broadcast", 2, "before"), ("broadcast", 2, "after")]
@@ -90,6 +90,8 @@ def normalise(res):
             recs.append({"ev": "gettx", "tx": tx(e["tx"]), "ans": e["ans"]})
         elif ev == "include":
             recs.append({"ev": "include", "tx": tx(e["tx"])})
+        elif ev == "fail":
+            recs.append({"ev": "fail", "tx": tx(e["tx"])})
         elif ev == "crash":
             recs.append({"ev": "crash"})
     return recs
@@ -118,6 +120,10 @@ def property_on_observation(res):
                 bad.append("NoGap")
         elif ev in ("file", "boot"):
             fl = e["file"]
+            if e.get("in_place"):
+                # the file was modified where it stood: a crash in the middle of that write leaves it unreadable
+                # (Relayer.tla with AtomicWrite = FALSE: FileReadable fails)
+                bad.append("FileReadable:written-in-place")
             if fl["k"] == "torn" or fl["k"] == "?":
                 bad.append("FileReadable")
             elif fl["k"] in ("started", "prepared"):
@@ -141,7 +147,7 @@ def run(tier, seed, corrupt=False):
             v.mismatch(f"spec:Relayer:{cfg}:{r.violation}", vf.tlc_violation_case(r))
             continue
         vf.require_coverage(r, ["Boot", "ConfirmPrevConfirmed", "ConfirmPrevTimeout", "TakeBatch", ("WritePrepared", "Next"), "Broadcast",
-                                "Confirmed", "FailedAttemptTimeout", "Include", "Evict", "Crash", "CrashDuringWrite"])
+                                "Confirmed", "FailedAttemptTimeout", "Include", "Evict", "IncludeFailed", "Crash", "CrashDuringWrite"])
         states += r.distinct
         transitions += r.generated
         cfgs.append({"cfg": cfg, "distinct": r.distinct, "generated": r.generated, "wall_s": round(r.wall, 1)})
